@@ -106,7 +106,7 @@ def denote(q, p):
     raise Undefined()
 
 
-TOTAL_TESTS = {0, 4}      # user test functions of the twin table that never raise
+TOTAL_TESTS = {0, 4, 8}      # user test functions of the twin table that never raise
 
 
 def wf_query(q):
